@@ -46,6 +46,9 @@ Check(t) ==
          ELSE IF pe.vol_exc = "" /\ Len(pe.vol) # Len(pe.full.vol) /\ Len(pe.vol) # 1 /\ Len(pe.full.vol) # 1 THEN <<"volume-rows-after-binding", "", Cardinality(J)>>
          ELSE IF pe.box_exc = "" /\ pe.full.box_exc = "" /\ pe.box_shape = pe.full.box_shape /\ ~SeqClose(pe.box, pe.full.box, 2) THEN <<"bounding-box-after-binding", "", Cardinality(J)>>
          ELSE IF ~HasBd(e) /\ \E i \in DOMAIN pe.samples : ~InTol(e, Q(pe.samples[i]), Tol) THEN <<"sample-after-binding-outside", "", Cardinality(J)>>
+         \* the normal field of a boundary after binding is that of the original boundary at the joint rows
+         ELSE IF pe.normals_exc # "" THEN <<"normal-after-binding-failed", "", Cardinality(J)>>
+         ELSE IF \E i \in DOMAIN pe.normals : ~SeqClose(pe.normals[i], pe.normals_full[i], 3) THEN <<"normal-after-binding", "", Cardinality(J)>>
          ELSE <<"ok", "", Cardinality(J)>>
 Init == tid \in 1..Len(Traces) /\ LET r == Check(Traces[tid]) IN verdict = r[1] /\ dev = r[2] /\ judged = r[3]
 Next == FALSE /\ UNCHANGED <<tid, verdict, dev, judged>>
